@@ -531,7 +531,16 @@ Definition has_buf (b : bufid) (sl : slice) : bool := sl_buf sl =? b.
 
 (* [BPut] gives the caller's slice up, so the pool never holds two headers of one array and
    dropping "the headers of array b" drops exactly the one handed out *)
-Definition bstep (mincap : nat) (s : bstate) (e : bevent) : option bstate :=
+(* how much of a recycled slice Get clears: the length it was Put with (before fix
+   C08-byteslicepool-clear-capacity), or its whole capacity (buf = buf[:cap(buf)]; a Go slice
+   always has len <= cap, hence the max) *)
+Definition clear_upto (v : variant) (sl : slice) : nat :=
+  match v with
+  | Original => sl_len sl
+  | Fixed => Nat.max (sl_len sl) (sl_cap sl)
+  end.
+
+Definition bstep (v : variant) (mincap : nat) (s : bstate) (e : bevent) : option bstate :=
   match e with
   | BGet t capacity c =>
       match b_held s t with
@@ -539,8 +548,8 @@ Definition bstep (mincap : nat) (s : bstate) (e : bevent) : option bstate :=
       | None =>
           match match c with Some b => find (has_buf b) (b_pool s) | None => None end with
           | Some sl =>
-              (* for i := range buf { buf[i] = 0 }; return buf[:0] *)
-              Some (mkB (upd (b_heap s) (sl_buf sl) (zero_prefix (b_heap s (sl_buf sl)) (sl_len sl)))
+              (* [buf = buf[:cap(buf)];] for i := range buf { buf[i] = 0 }; return buf[:0] *)
+              Some (mkB (upd (b_heap s) (sl_buf sl) (zero_prefix (b_heap s (sl_buf sl)) (clear_upto v sl)))
                         (filter (fun x => negb (has_buf (sl_buf sl) x)) (b_pool s)) (b_next s)
                         (upd (b_held s) t (Some (mkSl (sl_buf sl) 0 (sl_cap sl)))))
           | None =>
@@ -592,19 +601,19 @@ Definition grows (s : bstate) (e : bevent) : Prop :=
   | _ => True
   end.
 
-Fixpoint brun (mincap : nat) (s : bstate) (es : list bevent) : option bstate :=
+Fixpoint brun (v : variant) (mincap : nat) (s : bstate) (es : list bevent) : option bstate :=
   match es with
   | [] => Some s
-  | e :: es' => match bstep mincap s e with Some s' => brun mincap s' es' | None => None end
+  | e :: es' => match bstep v mincap s e with Some s' => brun v mincap s' es' | None => None end
   end.
 
 (* schedules in which no caller shrinks its slice with Resize (Get clears a recycled slice up to
    the length it was Put with: a caller that shrinks and then Puts leaves its bytes behind) *)
-Fixpoint grows_only (mincap : nat) (s : bstate) (es : list bevent) : Prop :=
+Fixpoint grows_only (v : variant) (mincap : nat) (s : bstate) (es : list bevent) : Prop :=
   match es with
   | [] => True
   | e :: es' => grows s e /\
-                match bstep mincap s e with Some s' => grows_only mincap s' es' | None => True end
+                match bstep v mincap s e with Some s' => grows_only v mincap s' es' | None => True end
   end.
 
 (* any initial heap content: nothing a caller sees may depend on it *)
@@ -624,6 +633,16 @@ Fixpoint appended (t : nat) (es : list bevent) (acc : list N) : list N :=
   | BResize t' n :: es' =>
       appended t es' (if t' =? t then firstn n acc ++ repeat 0%N (n - length acc) else acc)
   | BPut t' :: es' => appended t es' (if t' =? t then [] else acc)
+  end.
+
+(* the bytes caller t wrote into its slice since its last Get (from the schedule alone) *)
+Fixpoint written (t : nat) (es : list bevent) (acc : list N) : list N :=
+  match es with
+  | [] => acc
+  | BGet t' _ _ :: es' => written t es' (if t' =? t then [] else acc)
+  | BAppend t' d :: es' => written t es' (if t' =? t then acc ++ d else acc)
+  | BResize _ _ :: es' => written t es' acc
+  | BPut t' :: es' => written t es' (if t' =? t then [] else acc)
   end.
 
 (* ---------------------------------------------------------------------------------------- *)
